@@ -199,6 +199,12 @@ FEATURES = {
     # dotted names of three and four parts (every part after the first resolves through the one before it)
     "dotted-chain": ("import os.path\nclass Thing:\n    class Inner:\n        class Deep:\n            dv = 1\n"
                      "chv: Thing.Inner.Deep = Thing.Inner.Deep.dv\ndef fch(p: Thing.Inner.Deep = Thing.Inner.Deep) -> Thing.Inner: ...\nchw = os.path.join\nclass Sub(Thing.Inner.Deep):\n    pass\n"),
+    # more un-annotated items than the tuple annotation of the signature has elements (one, two and three items; Google and Numpy syntax)
+    "doc-tuple-items": ('from typing import Iterator\n'
+                        'def rt1(a) -> tuple[int, str]:\n    """Summary.\n\n    Returns:\n        first: A.\n    """\n'
+                        'def rt3(a) -> tuple[int, str]:\n    """Summary.\n\n    Returns:\n        first: A.\n        second: B.\n        third: C.\n    """\n'
+                        'def gy3(a) -> Iterator[tuple[int, str]]:\n    """Summary.\n\n    Yields:\n        first: A.\n        second: B.\n        third: C.\n    """\n    yield (1, "")\n'
+                        'def nrt3(a) -> tuple[int, str]:\n    """Summary.\n\n    Returns\n    -------\n    first\n        A.\n    second\n        B.\n    third\n        C.\n    """\n'),
     "inherit": "import abc\nclass A(abc.ABC):\n    @abc.abstractmethod\n    def am(self): ...\n    x = 1\nclass B(A):\n    y = 2\n",
 }
 EXECUTABLE = list(FEATURES)
